@@ -23,7 +23,7 @@ TRUSTED = [
 ]
 ASSUMPTIONS = [
     "Rust i32/usize arithmetic is modelled on unbounded Int; theorems rs_*_eq hold for years >= 1 (no overflow inside 1..9999)",
-    "local_time's float argument (Rust f64 unix_time) is exercised with integer-valued timestamps only (|t| < 2^53)",
+    "local_time's float argument (Rust f64 unix_time) is exercised with integer-valued timestamps and with t + q/4, q in 1..3 (exact in binary64, |t| < 2^51)",
 ]
 
 MIN_TS = -62135596800          # 0001-01-01T00:00:00Z
@@ -102,12 +102,17 @@ def gen_ops(rng, tier):
         if rng.random() < 0.3:
             t = (t // 86400) * 86400 + rng.choice((-1, 0, 1))
         yield ("localtime", t, off)
+        if rng.random() < 0.25:
+            # a non-integral timestamp t + q/4 (exact in binary64): the broken-down time is that of floor(t + q/4) = t, also below zero
+            t2 = rng.choice((t, -abs(t), (t // 86400) * 86400 - 1, (t // 86400) * 86400, -1, 0, -86400, -86401))
+            if MIN_TS + 86400 <= t2 <= MAX_TS - 86400:
+                yield ("localtime", t2, rng.choice((0, off)), rng.randint(1, 3))
 
 
 def line(op, backend):
     k = op[0]
     if k in ("isleap", "islong", "diy", "weekday", "localtime"):
-        return " ".join([k, backend] + [str(x) for x in op[1:]])
+        return " ".join([k, backend] + [str(x) for x in op[1:3 if k == "localtime" else None]])
     return " ".join(str(x) for x in op)
 
 
@@ -134,7 +139,7 @@ def impl(op, backend):
     if k == "weekday":
         return "ok %d" % H.week_day(op[1], op[2], op[3])
     if k == "localtime":
-        r = H.local_time(op[1], op[2], 0)
+        r = H.local_time(op[1] + op[3] / 4 if len(op) == 4 else op[1], op[2], 0)
         return "ok %d %d %d %d %d %d" % tuple(r[:6])
     if k == "getters":
         d = _H["Date"](op[1], op[2], op[3])
@@ -201,6 +206,8 @@ def tag(op, out):
         return k + ":mid-month"
     if k == "localtime":
         t = op[1] + op[2]
+        if len(op) == 4:
+            return k + (":fraction-negative" if op[1] < 0 else ":fraction")
         if t % 86400 in (0, 1, 86399):
             return k + ":day-boundary"
         if op[1] < 0:
